@@ -634,6 +634,24 @@ static void f21_render (uint64_t idx) {
 static int f21_ninputs (uint64_t idx) { return 2; }
 static pinput f21_input (uint64_t idx, int i) { int big = (idx / 10) % 2; pinput p = {i ? 200 : 7, big ? 400 : 3, -1, 0, 0}; return p; }
 
+/* =============================== F22: a load, two stores with alias annotations in a later block, and the load again: availability of the first load across blocks =============================== */
+static uint64_t f22_count (int th) { return 12 * 12 * 4 * 3; }
+static void f22_store (int st, const char *val) {
+  static const char *T[] = {"i8", "i32", "i64"}, *A[] = {"(m)", "(m):x", "(q)", "(q):y"}; /* alias x only on buffer m, y only on buffer q (q is the other buffer for every input): different alias sets never overlap */
+  S ("  mov %s:%s, %s\n", T[st % 3], A[st / 3], val);
+}
+static void f22_render (uint64_t idx) {
+  int shape = idx % 3; idx /= 3; int ld = idx % 4; idx /= 4; int s2 = idx % 12; int s1 = (int) (idx / 12);
+  const char *lt = ld & 1 ? "i64" : "i32", *la = ld & 2 ? "(m):x" : "(m)";
+  begin_func (""); S ("  mov r2, 0\n  mov r0, %s:%s\n", lt, la);
+  if (shape != 2) S ("  bf S1, a\n  add r2, r2, 1\nS1:\n");
+  f22_store (s1, "b"); f22_store (s2, "7");
+  if (shape != 1) S ("  bf S2, a\n  add r2, r2, 2\nS2:\n");
+  S ("  mov r1, %s:%s\n  mul r, r0, 3\n  add r, r, r1\n  add r, r, r2\n  ret r\n", lt, la); end_func ();
+}
+static int f22_ninputs (uint64_t idx) { return 4; }
+static pinput f22_input (uint64_t idx, int i) { pinput p = {i & 1, i & 2 ? -2 : 5, -1, 0, 0}; return p; }
+
 int progfam_thorough;
 static const family FAMILIES[] = {
   {"F1a-ext-chains", f1a_count, f1a_render, in_intgrid_n, in_intgrid},
@@ -661,6 +679,7 @@ static const family FAMILIES[] = {
   {"F19-multiple-results-rets", f19_count, f19_render, f19_ninputs, f19_input},
   {"F20-variable-address", f20_count, f20_render, f20_ninputs, f20_input},
   {"F21-inlined-stack-areas", f21_count, f21_render, f21_ninputs, f21_input},
+  {"F22-load-availability-across-blocks", f22_count, f22_render, f22_ninputs, f22_input},
   /* thorough only, 1.5e8 programs: kept last so that a deadline cuts this family and no other */
   {"F3t-cfg3-full", f3t_count, f3t_render, f3_ninputs, f3_input},
 };
